@@ -359,6 +359,9 @@ def run(eng, run):
     run.attempt(c08.check_remove_after_write, eng, run, rule="C12.tls")
     run.attempt(c04.check_prog, eng, RuleAlias(run, "C12.span"))
     run.attempt(check_fifo, eng, run)
+    from rules import c11, c18
+    run.attempt(c18.check_distinct_primitives, eng, RuleAlias(run, "C12.held"))  # the send lock and the receive lock are two locks
+    run.attempt(c11.check_infinite_wait_error, eng, RuleAlias(run, "C12.span"), "C12.span")  # a blocked sender is not failed mid-packet by the retry wake-up
     run.end_of_rules()
 
 
